@@ -446,6 +446,17 @@ pub fn boundary_shapes(rng: &mut Rng) -> Vec<Prob> {
         let cones: Vec<SupportedConeT<f64>> = (0..8).flat_map(|k| vec![NonnegativeConeT(1 + k), SecondOrderConeT(2 + k % 2)]).collect();
         out.push(planted(rng, 3, cones, 0));
     }
+    // box QPs whose intermediate figures overflow: min 1/2 ps |x|^2 + qs (x1 - x2), -bs <= as x <= bs
+    for &(qs, ps, bs, as_) in &[(1e155, 1.0, 1e155, 1.0), (1e300, 1e300, 1e300, 1e300), (1e300, 0.0, 1.0, 1.0), (1e200, 1e-200, 1e200, 1e-100)] {
+        let n = 2;
+        let mut rows = vec![];
+        for i in 0..n { let mut r = vec![0.0; n]; r[i] = as_; rows.push(r); }
+        for i in 0..n { let mut r = vec![0.0; n]; r[i] = -as_; rows.push(r); }
+        let mut Pd = vec![vec![0.0; n]; n];
+        for i in 0..n { Pd[i][i] = ps; }
+        out.push(Prob { P: dense_to_csc(&Pd, n, n), q: vec![qs, -qs], A: dense_to_csc(&rows, 2 * n, n), b: vec![bs; 2 * n],
+            cones: vec![NonnegativeConeT(2 * n)], label: format!("box QP scaled by q={:e} P={:e} b={:e} A={:e}", qs, ps, bs, as_), intent: 3 });
+    }
     // extreme magnitudes
     for &sc in &[1e-150, 1e-50, 1e50, 1e150] {
         let mut p = planted(rng, 2, vec![NonnegativeConeT(2), ZeroConeT(1)], 1);
